@@ -21,7 +21,7 @@ RULE = (
     "bystander tables are compared with the model. Non-trivial = at least one DML statement whose model-affected count was "
     "compared; distinct = distinct statement sequences."
 )
-REQUIRED = ["cmp_status", "cmp_rowcount", "cmp_target", "cmp_bystander", "cmp_ddl_status", "affected_zero", "affected_many"]
+REQUIRED = ["cmp_status", "cmp_rowcount", "cmp_target", "cmp_bystander", "cmp_ddl_status", "affected_zero", "affected_many", "cmp_execute_string"]
 ASSUMPTIONS = [
     "the reference model implements SQL three-valued logic for the generated predicate language only",
     "table contents are read through a raw DuckDB cursor of the same instance (committed view)",
@@ -235,6 +235,35 @@ def run_case(case: dict, env: core.Env) -> None:
         if models.multiset(_read(raw, "BY")) != by_ms or models.multiset(_read(raw, "SRC")) != models.multiset(src):
             env.witness(f"C04/{cmd}/bystander-changed", sql)
             return
+    # the same guarantees statement by statement when a script is run with execute_string: one cursor per statement,
+    # each holding that statement's own status row and rowcount
+    n = len(model)
+    script = [("INSERT INTO T (A, B) VALUES (901, 'es1'), (902, 'es2'), (903, NULL)", [(3,)], 3),
+              ("UPDATE T SET B = 'es' WHERE A >= 901", [(3, 0)], 3),
+              ("DELETE FROM T WHERE A = 903", [(1,)], 1),
+              ("UPDATE T SET B = 'none' WHERE A = 999", [(0, 0)], 0),
+              ("DELETE FROM T WHERE A IN (901, 902)", [(2,)], 2)]
+    for cls in (None, core.DictCursor):
+        env.count("cmp_execute_string")
+        try:
+            curs = list(conn.execute_string(";\n".join(s for s, _, _ in script), **({"cursor_class": cls} if cls else {})))
+        except Exception as e:  # noqa: BLE001
+            env.witness(f"C04/execute_string/rejected/{type(e).__name__}", str(e)[:300])
+            break
+        if len(curs) != len(script):
+            env.witness("C04/execute_string/cursor-count", f"{len(curs)} cursors for {len(script)} statements")
+            break
+        for c_, (sql, status, aff) in zip(curs, script):
+            rows = c_.fetchall()
+            got = [tuple(r.values()) if isinstance(r, dict) else tuple(r) for r in rows]
+            cmd = sql.split()[0]
+            if got != status:
+                env.witness(f"C04/execute_string/{cmd}/status-row", f"{sql} -> status {got} expected {status}")
+            if c_.rowcount != aff:
+                env.witness(f"C04/execute_string/{cmd}/rowcount", f"{sql} -> rowcount {c_.rowcount} expected {aff}")
+        if models.multiset(_read(raw, "T")) != models.multiset(model) or len(model) != n:
+            env.witness("C04/execute_string/target-contents", "script left the table changed")
+            break
     if compared:
         env.nontrivial([s for s in core.jsonable(case["stmts"])])
 
